@@ -244,7 +244,26 @@ class C11:
                         hits.append((n, m))
             key = "%s|%s" % (fn.name, construct)
             if not hits:
-                rep.violation("C11.X7", key, fn, "the index clean-up statement `%s` is gone from %s" % (construct, fn.name))
+                # extract-method: the statement may live in a private helper that only this function calls
+                import re as _re
+                wild = _re.sub(r"\b(%s)\b" % "|".join(_re.escape(x) for x in fn.params()[1:]), lambda m_: "$W_" + m_.group(1), construct)
+                moved = None
+                for s_ in ctx.sites(fn):
+                    for h in s_.under:
+                        if h.cls is fn.cls and h.name.startswith("_") and h is not fn and all(c_.func is fn for c_ in ctx.callers(h)):
+                            for n in ctx.own_nodes(h):
+                                if isinstance(n, (ast.Assign, ast.Expr, ast.Call)) and pat.match(wild, n.value if isinstance(n, ast.Expr) else n) is not None:
+                                    moved = (h, n, s_)
+                if moved is None:
+                    rep.violation("C11.X7", key, fn, "the index clean-up statement `%s` is gone from %s" % (construct, fn.name))
+                    continue
+                h, n, s_ = moved
+                wild_allowed = [(_re.sub(r"\b(%s)\b" % "|".join(_re.escape(x) for x in fn.params()[1:]), lambda m_: "$W_" + m_.group(1), ap), apol) for ap, apol in allowed]
+                # in the helper every name is free: compare shapes only
+                extra = [x for x in ctx.facts_at(h, n) if not any(x[1] == apol and pat.match(_re.sub(r"\$\w+", "$_", ap), ast.parse(x[0], mode="eval").body) is not None for ap, apol in wild_allowed)]
+                extra += extra_guards(ctx.facts_at(fn, s_.node), allowed)
+                rep.check("C11.X7", key, ctx.line(h, n), not extra, "moved into helper %s, same guards" % h.name,
+                          "`%s` (now in helper %s) is also conditional on %s" % (ast.unparse(n)[:60], h.name, extra), func=h.qname)
                 continue
             for n, m in hits:
                 facts = ctx.facts_at(fn, n)
@@ -264,6 +283,15 @@ class C11:
             good = good or ("%s[%s].oid" % (ent, side) in names and oid in names)
         rep.check("C11.X7", "_change_oid|both-ids", f, good, "slots of the entry's old id and of the new id are vacated",
                   "_change_oid no longer vacates both the entry's previous id and the incoming id")
+
+
+def extra_guards(facts, allowed):
+    out = []
+    for (txt, pol) in sorted(facts):
+        e = ast.parse(txt, mode="eval").body
+        if not any(pol == apol and pat.match(ap, e) is not None for ap, apol in allowed):
+            out.append("%s%s" % ("" if pol else "not ", txt))
+    return out
 
 
 def run(ctx: Ctx, rep: Report, tier: str):
